@@ -29,7 +29,10 @@ fn profile() -> Profile {
 
 /// programs that neither read remaining gas / time / randomness nor swallow failures of sub-calls
 fn gas_program(rng: &mut Rng, depth: u32, stores: &[String]) -> Cd {
-    match rng.below(if depth == 0 { 14 } else { 8 }) {
+    match rng.below(if depth == 0 { 15 } else { 8 }) {
+        // what the program returns depends on the block it runs in: the estimate and the prediction are made for the
+        // block the transaction will be part of
+        14 => Cd::BlockInfo,
         // refund-dominated: clears 2-6 slots (set to non-zero by a preceding block), gas used after refunds is far
         // below what must be available up front
         12 | 13 => Cd::Sstore((0..rng.range(2, 6)).map(|i| (20 + i, 0)).collect()),
@@ -120,7 +123,13 @@ impl Prop for C16 {
                 }
                 let target = Target::Addr(rng.pick(&stores).clone());
                 let data = gas_program(&mut rng, 0, &stores);
-                let from = Who::Pk(sender);
+                // a quarter of the probes are sent as a signed transaction of a signer account (next nonce) instead of an
+                // inscription call; the gas limit field of the signed payload varies and must not matter
+                let signed_by: Option<u8> = if rng.chance(1, 4) { Some(rng.below(crate::world::N_SIGNERS as u64) as u8) } else { None };
+                let from = match signed_by {
+                    Some(sg) => Who::Signer(sg),
+                    None => Who::Pk(sender),
+                };
                 if let Cd::Sstore(pairs) = &data {
                     if pairs.iter().all(|(slot, v)| *v == 0 && *slot >= 20) {
                         id += 1;
@@ -170,7 +179,14 @@ impl Prop for C16 {
                 if enc != Enc::Hex {
                     w.stats.bump("probe_base64_payload");
                 }
-                let tx = Tx { id, kind: TxKind::Call { sender, target: target.clone(), by_inscription: false, data: data.clone() }, len: LenPolicy::Exact(len), enc };
+                let kind = match signed_by {
+                    Some(sg) => {
+                        w.stats.bump("probe_signed_transaction_probe");
+                        TxKind::Transact { signer: sg, nonce: NonceSpec::Rel(0), to: Some(target.clone()), data: data.clone(), deploy: None, chain_ok: true }
+                    }
+                    None => TxKind::Call { sender, target: target.clone(), by_inscription: false, data: data.clone() },
+                };
+                let tx = Tx { id, kind, len: LenPolicy::Exact(len), enc };
                 let ts = 1_000_000 + id as u64;
                 w.op_index = base + 1 + k as usize;
                 // sometimes another transaction of the same block burns its whole (possibly saturated) allowance
@@ -197,6 +213,17 @@ impl Prop for C16 {
                 let before = obs::observe(&mut w.inst, &uni0, Depth::Getters);
                 let r = w.exec_tx(crate::world::BASE_TS + ts, &HashMode::Zero, &tx);
                 let receipt = match &r {
+                    // a signed transaction answers with the list of receipts it produced (its own first)
+                    Resp::Ok(Value::Array(a)) => match a.first() {
+                        // alone: a waiting successor of the same signer that is drained in the same call would blur what
+                        // this transaction did
+                        Some(x) if a.len() == 1 => x.clone(),
+                        _ => {
+                            let _ = w.finalise(crate::world::BASE_TS + ts, &HashMode::Zero);
+                            w.stats.bump("signed_probe_not_executed");
+                            continue;
+                        }
+                    },
                     Resp::Ok(v) => v.clone(),
                     other => {
                         violation = Some(Violation::new("probe-tx-rejected", json!({"probe": k, "len": len, "resp": other.to_value()})));
@@ -219,7 +246,7 @@ impl Prop for C16 {
                 if !ok {
                     // failed: nothing but the sender's nonce may have moved
                     let after = obs::observe(&mut w.inst, &uni0, Depth::Getters);
-                    let me = addr_str(&pk_addr(sender));
+                    let me = addr_str(&w.who_addr(&from));
                     if let Some((kind, d)) = first_diff(&state_part(&before, &me), &state_part(&after, &me)) {
                         violation = Some(Violation::new(format!("failed-tx-changed-state/{kind}"), json!({"probe": k, "inscription_byte_len": len, "receipt": trunc(&receipt), "diff(before,after)": d})));
                         break 'probes;
